@@ -10,8 +10,8 @@
    annotation expressions, at unlimited width, at token level; identifiers, strings, integers, floats at character level.
    Line breaking, statement layout and types are covered only by the differential oracle of vplib/props/c14.py. *)
 From Coq Require Import List NArith ZArith Bool Arith.
-From PV Require Import Lib.ListX Model.FmtLit Model.FmtPratt Model.Fmt Model.FmtInst
-  Proofs.FmtPrattProofs Proofs.FmtProofs Proofs.FmtLitProofs Proofs.FmtInstProofs Gen.GenCodegen.
+From PV Require Import Lib.ListX Model.FmtLit Model.FmtPratt Model.Fmt Model.FmtStmt Model.FmtInst
+  Proofs.FmtPrattProofs Proofs.FmtProofs Proofs.FmtStmtProofs Proofs.FmtLitProofs Proofs.FmtInstProofs Gen.GenCodegen.
 Import ListNotations.
 Local Open Scope N_scope.
 
@@ -65,19 +65,15 @@ Proof.
 Qed.
 Print Assumptions fmt_param_not_glued.
 
-(* ---- annotation expressions (`@expr`): Stmt::write raises the context strength to fmt_annotation_ctx, the parser reads
-        `expr()`: no call, lambda or aliased expression without parentheses (commit 95d15ad: `@(f x)` was written `@f x`) *)
-Theorem fmt_annotation_ctx_ok : annotation_ctx_ok = true.
-Proof. vm_compute. reflexivity. Qed.
-Print Assumptions fmt_annotation_ctx_ok.
-
+(* ---- annotation expressions (`@expr`): Stmt::write raises the context strength to fmt_annotation_ctx (part of `compat`),
+        the parser reads `expr()`: no call, lambda or aliased expression without parentheses (commit 95d15ad: `@(f x)` was
+        written `@f x`) *)
 Theorem fmt_annotation_roundtrip :
   forall e, wf e = true -> ops_ok nbin nun e = true -> is_named e = false ->
   exists f0, forall f, (f0 <= f)%nat -> parse_expr_prql f (fmt_annotation_toks e) = Some e.
 Proof.
-  pose proof fmt_annotation_ctx_ok as H. unfold annotation_ctx_ok in H. apply andb_true_iff in H as [H1 H2].
-  apply N.leb_le in H1. apply N.ltb_lt in H2.
-  exact (fun e => roundtrip_expr_at F_prql P_prql nbin nun (compat_sound _ _ _ _ fmt_compat) _ e H1 H2).
+  pose proof (compat_sound _ _ _ _ fmt_compat) as C.
+  exact (fun e => roundtrip_expr_at F_prql P_prql nbin nun C _ e (H_call_annot _ _ _ _ C) (H_alias_annot _ _ _ _ C)).
 Qed.
 Print Assumptions fmt_annotation_roundtrip.
 
@@ -92,6 +88,46 @@ Print Assumptions fmt_idempotent.
 Theorem parse_fuel_monotone : forall f g ts e, (f <= g)%nat -> parse_prql f ts = Some e -> parse_prql g ts = Some e.
 Proof. exact (parse_mono P_prql). Qed.
 Print Assumptions parse_fuel_monotone.
+
+(* ================================================================== whole programs (statement layer, token level) *)
+(* Stmt::write / Vec<Stmt>::write against parser/stmt.rs: annotations, `let` (with and without value), main pipelines
+   (one element per line) and `into`, `import` (with alias), nested `module`s; trees modulo doc comments (the formatter
+   prints none and the property ignores them); `type`, `let x <ty>` and the `prql` header are outside the model.
+   Full statement (FALSE -- findings C14-doc-comment-split and C14-main-pipeline-alias):
+     forall ss, wf_prog ss = true -> ops_ok_prog nbin nun ss = true ->
+       exists f0, forall f, f0 <= f -> parse_prog_prql f (fmt_prog_toks ss) = Some ss
+   `known_prog ss` holds exactly when, at some nesting level, a main pipeline is directly followed by a main pipeline or
+   `into` without annotation (in a parsed tree only a doc comment can separate the two), or the value of a main
+   pipeline / `into` is a pipeline that carries an alias. *)
+Theorem fmt_program_roundtrip_generic : forall F T nb nu, compat F T nb nu = true ->
+  forall ss, wf_prog ss = true -> ops_ok_prog nb nu ss = true -> known_prog ss = false ->
+  exists f0, forall f, (f0 <= f)%nat -> parse_prog T f (fmt_prog F ss) = Some ss.
+Proof. exact (fun F T nb nu H => prog_roundtrip F T nb nu (compat_sound F T nb nu H)). Qed.
+Print Assumptions fmt_program_roundtrip_generic.
+
+Theorem fmt_program_roundtrip_partial :
+  forall ss, wf_prog ss = true -> ops_ok_prog nbin nun ss = true -> known_prog ss = false ->
+  exists f0, forall f, (f0 <= f)%nat -> parse_prog_prql f (fmt_prog_toks ss) = Some ss.
+Proof. exact (prog_roundtrip F_prql P_prql nbin nun (compat_sound _ _ _ _ fmt_compat)). Qed.
+Print Assumptions fmt_program_roundtrip_partial.
+
+Theorem fmt_program_roundtrip_refuted :
+  exists ss, wf_prog ss = true /\ ops_ok_prog nbin nun ss = true /\ forall f, parse_prog_prql f (fmt_prog_toks ss) <> Some ss.
+Proof. exists split_witness. exact split_refuted. Qed.
+Print Assumptions fmt_program_roundtrip_refuted.
+
+(* one witness per class: two pipelines that only a doc comment separates; an aliased pipeline as a statement *)
+Theorem fmt_program_refutation_witnesses :
+  (adjacent_mains split_witness = true /\ forall f, parse_prog_prql f (fmt_prog_toks split_witness) <> Some split_witness) /\
+  (existsb known_stmt alias_pipeline_witness = true /\ forall f, parse_prog_prql f (fmt_prog_toks alias_pipeline_witness) <> Some alias_pipeline_witness).
+Proof.
+  split; (split; [reflexivity|]); [exact (proj2 (proj2 split_refuted)) | exact (proj2 (proj2 alias_pipeline_refuted))].
+Qed.
+Print Assumptions fmt_program_refutation_witnesses.
+
+Theorem parse_prog_fuel_monotone : forall f g ts p, (f <= g)%nat -> parse_prog_prql f ts = Some p -> parse_prog_prql g ts = Some p.
+Proof. exact (parse_prog_mono P_prql). Qed.
+Print Assumptions parse_prog_fuel_monotone.
 
 (* ================================================================== literals and identifiers (character level) *)
 
@@ -190,6 +226,9 @@ Proof. vm_compute. repeat split; reflexivity. Qed.
 Example ex_glued_detects : glued [TA (AParam [97]); TRg true true; TA (AIdent [[98]])] = true
   /\ glued (fmt_toks (ERng (par_atom 97) (idn 98))) = false.
 Proof. vm_compute. split; reflexivity. Qed.
+Example ex_program : wf_prog program_witness = true /\ ops_ok_prog nbin nun program_witness = true /\ known_prog program_witness = false
+  /\ parse_prog_prql 60 (fmt_prog_toks program_witness) = Some program_witness.
+Proof. vm_compute. repeat split; reflexivity. Qed.
 Example ex_alias_text : fmt_text (EBin 5 (idn 97) (EAlias [120] (idn 98))) = [97; 32; 43; 32; 40; 120; 32; 61; 32; 98; 41]   (* a + (x = b) *)
   /\ fmt_text (ERng (par_atom 97) (idn 98)) = [40; 36; 97; 41; 46; 46; 98]                                                (* ($a)..b *)
   /\ fmt_text (ERngL (EUn 0 (par_atom 97))) = [45; 40; 36; 97; 41; 46; 46].                                               (* -($a).. *)
